@@ -328,6 +328,7 @@ func cmdCheck(args []string) int {
 		minBound, maxBound                                                         int
 		instances                                                                  int
 		deeper, deeperDone                                                         int
+		histories                                                                  int
 	}
 	a := agg{minBound: 99}
 	distinct := map[string]bool{}
@@ -353,6 +354,7 @@ func cmdCheck(args []string) int {
 		a.points += r.Points
 		a.caps += r.CapHits
 		a.pruned += r.Pruned
+		a.histories += r.Histories
 		a.violExecs += r.ViolExecs
 		a.maxAlts = max(a.maxAlts, r.MaxAlts)
 		a.maxThreads = max(a.maxThreads, r.MaxThreads)
@@ -487,6 +489,7 @@ func cmdCheck(args []string) int {
 			"max_threads":                   a.maxThreads,
 			"caps_hit":                      a.caps,
 			"pruned_by_fingerprint":         a.pruned,
+			"distinct_event_histories":      a.histories,
 			"violating_executions":          a.violExecs,
 			"known_findings_observed":       len(knownSeen),
 			"build_s":                       buildS,
